@@ -1054,7 +1054,11 @@ class Patron(object):
             qargs = odict()
             qargs, query = httping.updateQargsQuery(qargs, query)
 
-            self.transmit(method=method, path=path, qargs=qargs, fragment=fragment)
+            try:
+                self.transmit(method=method, path=path, qargs=qargs, fragment=fragment)
+            except ValueError as ex:  # such as path //x/y taken for another host by requester
+                self.waited = False
+                return False
 
             self.respondent.redirectant = False
             self.respondent.redirected = True
